@@ -28,6 +28,7 @@ import (
 	bctx "github.com/flant/shell-operator/pkg/hook/binding_context"
 	htypes "github.com/flant/shell-operator/pkg/hook/types"
 	kemtypes "github.com/flant/shell-operator/pkg/kube_events_manager/types"
+	"k8s.io/apimachinery/pkg/apis/meta/v1/unstructured"
 
 	"verifharness/internal/core"
 )
@@ -40,6 +41,11 @@ type Ctx struct {
 	From    string `json:"from,omitempty"`
 	To      string `json:"to,omitempty"`
 	Raw     string `json:"raw,omitempty"`
+	// Pad: KiB of object payload carried by the context (objects of a Synchronization, the
+	// object of an Event, the snapshot of a Group, a member "pad" of a raw one).  The payload has
+	// no part in the choice of the handler; a context may be larger than one argument or
+	// environment string may be (128 KiB on Linux).
+	Pad int `json:"pad,omitempty"`
 }
 
 // Cmd is one command of a handler body.  Op names the shape, St the exit statuses of the
@@ -143,7 +149,41 @@ func toBindingContext(c Ctx) bctx.BindingContext {
 	case "kubeShort":
 		bc.Metadata.BindingType = htypes.OnKubernetesEvent // Type == "": the short form without a type
 	}
+	if c.Pad > 0 {
+		switch c.Kind {
+		case "sync":
+			// many objects of about 1 KiB
+			for i := 0; i < c.Pad; i++ {
+				bc.Objects = append(bc.Objects, padObject(i, 1))
+			}
+		case "added", "modified", "deleted":
+			bc.Objects = []kemtypes.ObjectAndFilterResult{padObject(0, c.Pad)}
+		case "group":
+			bc.Metadata.IncludeAllSnapshots = true
+			bc.Snapshots = map[string][]kemtypes.ObjectAndFilterResult{c.Binding: {padObject(0, c.Pad/2), padObject(1, c.Pad-c.Pad/2)}}
+		}
+	}
 	return bc
+}
+
+func padObject(i, kib int) kemtypes.ObjectAndFilterResult {
+	var o kemtypes.ObjectAndFilterResult
+	o.Object = &unstructured.Unstructured{Object: map[string]interface{}{
+		"apiVersion": "v1", "kind": "ConfigMap",
+		"metadata": map[string]interface{}{"name": fmt.Sprintf("pad-%d", i), "namespace": "default"},
+		"data":     map[string]interface{}{"blob": strings.Repeat("0123456789abcdef", 64*kib-8)},
+	}}
+	o.Metadata.ResourceId = fmt.Sprintf("default/ConfigMap/pad-%d", i)
+	return o
+}
+
+// paddable tells whether Pad has an effect on a context of this kind.
+func paddable(kind string) bool {
+	switch kind {
+	case "sync", "added", "modified", "deleted", "group", "raw":
+		return true
+	}
+	return false
 }
 
 // ContextsJSON is the content of the binding context file of a case.
@@ -154,6 +194,9 @@ func ContextsJSON(in Input) ([]byte, error) {
 			var m map[string]interface{}
 			if err := json.Unmarshal([]byte(c.Raw), &m); err != nil {
 				return nil, fmt.Errorf("raw context: %v", err)
+			}
+			if c.Pad > 0 {
+				m["pad"] = strings.Repeat("0123456789abcdef", 64*c.Pad)
 			}
 			list = append(list, m)
 			continue
@@ -1068,6 +1111,62 @@ func randomInput(r *core.Rng) Input {
 	return in
 }
 
+// largeInput: a random input in which one or two contexts carry a payload around and beyond
+// 128 KiB (the largest single argument / environment string on Linux); their handlers and
+// __main__ are usually defined.
+func largeInput(r *core.Rng) Input {
+	var in Input
+	for {
+		in = randomInput(r)
+		if len(in.Args) == 0 && len(in.Ctxs) > 0 {
+			break
+		}
+	}
+	if len(in.Ctxs) > 3 {
+		in.Ctxs = in.Ctxs[:3]
+		for hi := range in.Defined {
+			if len(in.Defined[hi].Status) > 3 {
+				in.Defined[hi].Status = in.Defined[hi].Status[:3]
+			}
+		}
+	}
+	sizes := []int{100, 126, 127, 128, 129, 160, 200, 300}
+	n := 1 + r.Intn(2)
+	for k := 0; k < n; k++ {
+		i := r.Intn(len(in.Ctxs))
+		if !paddable(in.Ctxs[i].Kind) {
+			b := in.Ctxs[i].Binding
+			if b == "" || b == "onStartup" {
+				b = safeBindings[r.Intn(len(safeBindings))]
+			}
+			in.Ctxs[i] = mkCtx([]string{"sync", "added", "modified", "deleted", "group"}[r.Intn(5)], b)
+		}
+		in.Ctxs[i].Pad = sizes[r.Intn(len(sizes))]
+	}
+	// define the most specific candidate of every padded context with probability 3/4, __main__ with 1/2
+	have := map[string]bool{}
+	for _, h := range in.Defined {
+		have[h.Name] = true
+	}
+	add := func(name string) {
+		if !have[name] && safeName.MatchString(name) {
+			have[name] = true
+			in.Defined = append(in.Defined, Handler{Name: name})
+		}
+	}
+	for _, c := range in.Ctxs {
+		if c.Pad > 0 && r.Chance(75) {
+			if cs := candNames(c); len(cs) > 0 {
+				add(cs[r.Intn(len(cs))])
+			}
+		}
+	}
+	if r.Chance(50) {
+		add("__main__")
+	}
+	return in
+}
+
 // ---- handler bodies ----
 
 const nForms = 8
@@ -1344,12 +1443,12 @@ func Gen(r *core.Rng, tier string) ([]core.In[Input], bool) {
 	for _, in := range strictSystematic() {
 		ins = append(ins, core.In[Input]{Input: in, Stream: "strict-systematic"})
 	}
-	nRandom, nExotic, pairs, nBody := 60, 24, false, 110
+	nRandom, nExotic, pairs, nBody, nLarge := 60, 24, false, 110, 10
 	switch tier {
 	case "thorough":
-		nRandom, nExotic, pairs, nBody = 2500, 300, true, 6000
+		nRandom, nExotic, pairs, nBody, nLarge = 2500, 300, true, 6000, 150
 	case "search":
-		nRandom, nExotic, pairs, nBody = 600, 0, false, 1500
+		nRandom, nExotic, pairs, nBody, nLarge = 600, 0, false, 1500, 60
 	}
 	if pairs {
 		for _, in := range exhaustivePairs() {
@@ -1378,6 +1477,10 @@ func Gen(r *core.Rng, tier string) ([]core.In[Input], bool) {
 	re := r.Fork()
 	for i := 0; i < nExotic; i++ {
 		ins = append(ins, core.In[Input]{Input: exoticInput(re), Stream: "exotic"})
+	}
+	rl := r.Fork()
+	for i := 0; i < nLarge; i++ {
+		ins = append(ins, core.In[Input]{Input: largeInput(rl), Stream: "large-context"})
 	}
 	rb := r.Fork()
 	for i := 0; i < nBody; i++ {
